@@ -519,7 +519,96 @@ def run_fill(model, sc: Scenario, ctx=None):
         v = a[0]
         if isinstance(v, SolMat):
             return SolMat([ABSV(r) for r in v.rows])
+        if isinstance(v, KernelV):
+            return v
         raise AnalysisError("numpy.abs of an unexpected value in fill_cij")
+
+    class VtV:
+        """the right singular vectors of the stacked matrix [supplied; relations] (numpy.linalg.svd(a)[2]): rows rank.. span its null space"""
+
+        def __init__(self, ncols):
+            self.ncols = ncols
+
+        def sym_subscript(self, ev, idx, n, mod):
+            if isinstance(idx, SliceV) and idx.hi is None and idx.step is None and idx.lo is not None and is_sym(idx.lo) and idx.lo.is_Integer:
+                return KernelV(max(0, self.ncols - int(idx.lo)), self.ncols)
+            raise ev.err("subscript of the singular vectors other than [rank:]", n, mod)
+
+    class KernelV:
+        """(ncols - rank) x ncols block of null-space vectors; entries are not known, the SHAPE is (rank comes from the scenario)"""
+
+        def __init__(self, nrows, ncols):
+            self.nrows, self.ncols = nrows, ncols
+
+        def sym_getattr(self, ev, name, node, mod):
+            if name in ("max", "min", "any", "all", "sum"):
+                return BoundLib(f"kernel.{name}", self)
+            if name == "shape":
+                return Tup([sp.Integer(self.nrows), sp.Integer(self.ncols)])
+            if name == "T":
+                raise ev.err("transpose of the null-space block", node, mod)
+            raise ev.err(f"attribute {name} of the null-space block", node, mod)
+
+        def sym_compare(self, ev, op, other, flipped, n, mod):
+            return KernelFlags(self.nrows, self.ncols, reduced=getattr(self, "vector", False))
+
+    class KernelFlags:
+        """truth values derived from the null-space block: per entry, or per column after a reduction over the rows"""
+
+        def __init__(self, nrows, ncols, reduced):
+            self.nrows, self.ncols, self.reduced = nrows, ncols, reduced
+
+        def sym_getattr(self, ev, name, node, mod):
+            if name in ("any", "all"):
+                return BoundLib(f"kernelflags.{name}", self)
+            raise ev.err(f"attribute {name} of null-space flags", node, mod)
+
+        def sym_iter(self, ev, n, mod):
+            if not self.reduced:
+                raise ev.err("iteration over the rows of null-space flags", n, mod)
+            # one flag per component; which ones are set depends on the data - every component is taken as flagged (the flags only feed a log message)
+            return [self.nrows > 0] * self.ncols
+
+        def sym_compare(self, ev, op, other, flipped, n, mod):
+            return self
+
+    def kernel_reduce(name):
+        def f(ev, a, k):
+            kv = a[0]
+            axis = k.get("axis", a[1] if len(a) > 1 else None)
+            if axis is None or _const_int(axis) != 0:
+                raise AnalysisError(f"null-space block reduced along axis {axis!r}")
+            if name in ("max", "min") and kv.nrows == 0 and k.get("initial") is None:
+                # numpy: zero-size array to reduction operation maximum which has no identity
+                raise RaisedV("ValueError")
+            if name in ("max", "min", "sum"):
+                out = KernelV(kv.nrows, kv.ncols)       # one number per column (the row count is kept: it says whether there was anything to reduce)
+                out.vector = True
+                return out
+            return KernelFlags(kv.nrows, kv.ncols, reduced=True)
+        return f
+
+    def kernelflags_reduce(name):
+        def f(ev, a, k):
+            fl = a[0]
+            axis = k.get("axis", a[0 + 1] if len(a) > 1 else None)
+            if axis is not None and not fl.reduced and _const_int(axis) == 0:
+                return KernelFlags(fl.nrows, fl.ncols, reduced=True)          # per column over the rows: all-False when there are no rows
+            if axis is None:
+                return fl.nrows > 0 if name == "any" else True
+            raise AnalysisError(f"null-space flags reduced along axis {axis!r}")
+        return f
+
+    def svd(ev, a, k):
+        A = a[0]
+        if not isinstance(A, ArrV) or len(A.shape) != 2:
+            raise AnalysisError("svd of something that is not the stacked matrix")
+        kw_fm = k.get("full_matrices", True)
+        if kw_fm is not True:
+            raise AnalysisError("svd(full_matrices=False)")
+        if k.get("compute_uv", True) is not True:
+            raise AnalysisError("svd(compute_uv=False)")
+        return Tup([sp.Symbol("SVD_U"), sp.Symbol("SVD_S"), VtV(A.shape[1])])
 
     def predlist_all(ev, a, k):
         pl = a[0]
@@ -832,6 +921,8 @@ def run_fill(model, sc: Scenario, ctx=None):
         "numpy.concatenate": concatenate, "numpy.vstack": concatenate, "numpy.row_stack": concatenate, "numpy.repeat": repeat, "numpy.tile": tile, "sympy.matrix2numpy": matrix2numpy,
         "numpy.linalg.lstsq": lstsq, "numpy.allclose": allclose, "numpy.sum": np_sum,
         "numpy.empty": np_empty, "numpy.zeros": np_empty, "numpy.result_type": result_type,
+        "numpy.linalg.svd": svd, "kernel.max": kernel_reduce("max"), "kernel.min": kernel_reduce("min"), "kernel.any": kernel_reduce("any"), "kernel.all": kernel_reduce("all"),
+        "kernelflags.any": kernelflags_reduce("any"), "kernelflags.all": kernelflags_reduce("all"),
         "numpy.isclose": isclose, "boolmat.any": boolred("any"), "boolmat.all": boolred("all"),
         "pandas.DataFrame": dataframe, "labelledcol.bare": lambda ev, a, k: (k.all(), a[0].value)[1],
         "solmat.transpose": lambda ev, a, k: SolMatT(a[0].rows),
